@@ -358,6 +358,8 @@ def _ts(c, v=None):
 
 
 def _rest_newlines(toks, lo, hi, name):
+    if _lib.TOKEN_NEWLINE is None:
+        raise Unsupported("shape mismatch: token type CKBParser.NEWLINE not found in the generated parser")
     p = z3.Int("_re_p")
     return L.Forall([p], [L.LInt.at(toks, p)], z3.Implies(z3.And(lo <= p, p < hi), L.LInt.at(toks, p) == _lib.TOKEN_NEWLINE), name)
 
